@@ -44,3 +44,27 @@ Example C03_runs :
    map (einsum_general (S:=ZS) [0;1] [1;2] [2;3] [3;2] A B) (seq 0 4))
   = ([0;2], [2;2], [14;5;32;11]%Z).
 Proof. vm_compute. reflexivity. Qed.
+
+(** * Floating point: the rounding bound of the property statement, for the general route.
+    Over reals with a rounding after every operation that satisfies the standard model (FLX
+    binary32 / binary64 are instances, Properties_C01.C01_rounding_instances), for every pair of
+    index lists and every shape, every result position q of the loop nest is within
+    ((1+u)^c - 1) * (Einstein sum of |A||B| at q) of the exact Einstein sum at q, where
+    c = [einsum_count .. q] is the number of products accumulated into q. *)
+From Coq Require Import Reals.
+From FastorV Require Import Base.Rounding Proofs.SumRounding Proofs.EinsumRounding.
+Theorem C03_einsum_rounding :
+  forall (rnd : R -> R) (u : R),
+    (0 <= u)%R -> (forall x, (Rabs (rnd x - x) <= u * Rabs x)%R) -> (forall x, rnd (rnd x) = rnd x) ->
+  forall (fused : bool) (I J dimsA dimsB : list nat) (A B : nat -> R) (q : nat),
+    (Rabs (einsum_general (S:=FS rnd fused) I J dimsA dimsB A B q - einsum_general (S:=RS) I J dimsA dimsB A B q)
+     <= E u (einsum_count I J dimsA dimsB q) * einsum_abs I J dimsA dimsB A B q)%R.
+Proof. exact einsum_float_bound. Qed.
+Print Assumptions C03_einsum_rounding.
+
+(** and the exact reference is the Einstein sum (C03_einsum_general instantiated at exact real arithmetic) *)
+Theorem C03_einsum_exact_reals :
+  forall (I J dimsA dimsB : list nat) (A B : nat -> R) (o : list nat),
+    in_range (out_dims I J dimsA dimsB) o ->
+    einsum_general (S:=RS) I J dimsA dimsB A B (flat (out_dims I J dimsA dimsB) o) = einsum_spec (S:=RS) I J dimsA dimsB A B o.
+Proof. intros. apply (einsum_general_exact RS RS_laws); assumption. Qed.
